@@ -454,19 +454,77 @@ theorem dropWhile_eq_self (p : Char → Bool) (l : List Char) :
       · intro hh; cases hh
     · simp [h]
 
-/-- a string survives the file unchanged exactly when it does not end in a padding character -/
-theorem stripTrailing_eq_self (s : String) :
-    stripTrailing s = s ↔ ∀ c, s.toList.getLast? = some c → (c == ' ' || c == '\x00') = false := by
-  unfold stripTrailing
+/-- nothing is stripped exactly when the string does not end in a character of the set -/
+theorem stripTrailingBy_eq_self (p : Char → Bool) (s : String) :
+    stripTrailingBy p s = s ↔ ∀ c, s.toList.getLast? = some c → p c = false := by
+  unfold stripTrailingBy
   rw [← String.toList_inj, String.toList_ofList, List.reverse_eq_iff, dropWhile_eq_self, List.head?_reverse]
 
-theorem get_fileRoundTrip (d : DS) (k : String) : DS.get (fileRoundTrip d) k = (DS.get d k).map stripTrailing := by
+theorem stripTrailingBy_length_le (p : Char → Bool) (s : String) : (stripTrailingBy p s).toList.length ≤ s.toList.length := by
+  unfold stripTrailingBy
+  rw [String.toList_ofList, List.length_reverse]
+  have := (List.dropWhile_sublist (l := s.toList.reverse) p).length_le
+  simpa using this
+
+/-- stripping can only give back a string of the same length when it strips nothing -/
+theorem stripTrailingBy_same_length (p : Char → Bool) (s : String)
+    (h : (stripTrailingBy p s).toList.length = s.toList.length) : stripTrailingBy p s = s := by
+  unfold stripTrailingBy at h ⊢
+  rw [String.toList_ofList, List.length_reverse] at h
+  have hs := List.dropWhile_sublist (l := s.toList.reverse) p
+  have := hs.eq_of_length (by simpa using h)
+  rw [this, List.reverse_reverse, String.ofList_toList]
+
+theorem map_repertoire_eq_self (l : List Char) : l.map toDefaultRepertoire = l ↔ ∀ c ∈ l, c.val < 256 := by
+  induction l with
+  | nil => simp
+  | cons c cs ih =>
+    simp only [List.map_cons, List.cons.injEq, ih, List.mem_cons, forall_eq_or_imp]
+    constructor
+    · rintro ⟨h1, h2⟩
+      refine ⟨?_, h2⟩
+      unfold toDefaultRepertoire at h1
+      by_cases hc : c.val < 256
+      · exact hc
+      · simp only [hc, if_false] at h1
+        exfalso; apply hc; rw [← h1]; decide
+    · rintro ⟨h1, h2⟩
+      exact ⟨by simp [toDefaultRepertoire, h1], h2⟩
+
+/-- **a string survives the file unchanged exactly when every character is in the default repertoire and it does not end
+in a character the reader strips from that attribute** -/
+theorem readBack_eq_self (kw : String) (s : String) :
+    readBack kw s = s ↔ (∀ c ∈ s.toList, c.val < 256) ∧ (∀ c, s.toList.getLast? = some c → stripSet kw c = false) := by
+  unfold readBack
+  constructor
+  · intro h
+    have hlen : (stripTrailingBy (stripSet kw) (String.ofList (s.toList.map toDefaultRepertoire))).toList.length =
+        (String.ofList (s.toList.map toDefaultRepertoire)).toList.length := by
+      rw [h, String.toList_ofList, List.length_map]
+    have h2 := stripTrailingBy_same_length _ _ hlen
+    rw [h2] at h
+    have h3 : s.toList.map toDefaultRepertoire = s.toList := by
+      have := congrArg String.toList h
+      rwa [String.toList_ofList] at this
+    refine ⟨(map_repertoire_eq_self s.toList).mp h3, ?_⟩
+    have h4 := (stripTrailingBy_eq_self (stripSet kw) _).mp h2
+    rw [String.toList_ofList, h3] at h4
+    exact h4
+  · rintro ⟨h1, h2⟩
+    have h3 := (map_repertoire_eq_self s.toList).mpr h1
+    rw [h3, String.ofList_toList]
+    exact (stripTrailingBy_eq_self (stripSet kw) s).mpr h2
+
+theorem get_fileRoundTrip (d : DS) (k : String) : DS.get (fileRoundTrip d) k = (DS.get d k).map (readBack k) := by
   induction d with
   | nil => rfl
   | cons e rest ih =>
     obtain ⟨a, b⟩ := e
     simp only [DS.get, fileRoundTrip, List.map_cons, List.lookup] at ih ⊢
-    split <;> simp_all
+    by_cases h : k = a
+    · subst h; simp
+    · have : (k == a) = false := by simpa using h
+      simp [this, ih]
 
 /-! #### specification vocabulary for dict histories -/
 
